@@ -22,6 +22,7 @@ from gettext import NullTranslations
 import os
 import re
 from functools import partial
+from itertools import chain
 from types import FunctionType
 
 import six
@@ -506,6 +507,10 @@ class ChooseDirective(ExtractableI18NDirective):
         singular_msgbuf = MessageBuffer(self)
         plural_msgbuf = MessageBuffer(self)
 
+        if not strip:
+            # used as an element: the last event is content like the others
+            stream = chain(stream, [None])
+
         for event in stream:
             if previous[0] is SUB:
                 directives, substream = previous[1]
@@ -536,14 +541,6 @@ class ChooseDirective(ExtractableI18NDirective):
                 singular_msgbuf.append(*previous)
                 plural_msgbuf.append(*previous)
             previous = event
-
-        if not strip:
-            if previous[0] is EXPR:
-                for message in translator._extract_code(previous,
-                                                        gettext_functions):
-                    yield message
-            singular_msgbuf.append(*previous)
-            plural_msgbuf.append(*previous)
 
         yield contextify(self.lineno, 'ngettext', \
             (singular_msgbuf.format(), plural_msgbuf.format()), \
